@@ -47,7 +47,7 @@ var seams = map[string]map[string]string{
 	"sync": {"Mutex": "Mutex", "RWMutex": "RWMutex", "Pool": "Pool", "WaitGroup": "WaitGroup", "Cond": "!", "NewCond": "!", "Map": "!"},
 	"time": {"Now": "Now", "Since": "Since", "Until": "Until", "Sleep": "Sleep",
 		"After": "After", "AfterFunc": "!", "NewTimer": "!", "NewTicker": "!", "Tick": "!"},
-	"os":                           {"ReadFile": "ReadFile"},
+	"os":                           {"ReadFile": "ReadFile", "Open": "Open", "OpenFile": "OpenFile", "Stat": "Stat", "Lstat": "Stat"},
 	"io/ioutil":                    {"ReadFile": "ReadFile"},
 	"github.com/fsnotify/fsnotify": {"NewWatcher": "NewWatcher", "NewBufferedWatcher": "NewBufferedWatcher", "Watcher": "Watcher"},
 	"database/sql":                 {"Open": "SQLOpen"},
